@@ -121,7 +121,7 @@ PIPELINES = {
         "min_events": 500,
     },
     "api": {
-        "variants": ["ring", "awslc"],
+        "variants": ["ring", "awslc", "nocrypto"],
         "mc": [],
         "drivers": [{"name": "all", "cmd": ["api", "{out}", "{tier}"], "random": True}],
         "min_events": 50,
